@@ -637,6 +637,7 @@ func (x *Engine) typeAssert(fr *Frame, st *State, i *ssa.TypeAssert) Val {
 	}
 	if i.CommaOk {
 		rv := Val{T: x.name("ta", x.sortOf(i.AssertedType), fmt.Sprintf("(ite %s %s %s)", ok, res, x.zero(i.AssertedType))), Typ: i.AssertedType}
+		x.assume(st, x.wf(i.AssertedType, rv.T, st))
 		return Val{Typ: i.Type(), Tup: []Val{rv, {T: x.name("tok", "Bool", ok), Typ: types.Typ[types.Bool]}}}
 	}
 	// a failed assertion panics regardless of tracking mode
